@@ -815,13 +815,13 @@ package xpath
 //@ define pv(f, e) = evalv(ref(f.Predicate), e)
 //@ define epochOf(f, j, k0, e0) = e0 + (j - k0) + 1
 //@ func (*filterQuery).Select
-//@   props C15 C13 C02 C12
-//@   theory stream for C13 C02 C12
+//@   props C15 C13 C02 C12 C03
+//@   theory stream for C13 C02 C12 C03
 //@   uses one-document
 //@   assume[ownership] ref(f.Input) != ref(f.Predicate)
 //@   ensures[keeps-passing@C02] result != nil && !is(f.Predicate, nopQuery) ==> k(f.Input) > old(k(f.Input)) && pos(result) == inAt(f.Input, k(f.Input) - 1) && ctxp(f.Predicate) == pos(result) && (!is(pv(f, epoch(f.Predicate)), float64) ==> predTruth(pv(f, epoch(f.Predicate)), epoch(f.Predicate), 0))
 //@   ensures[skips-failing@C02] !is(f.Predicate, nopQuery) ==> epoch(f.Predicate) == old(epoch(f.Predicate)) + (k(f.Input) - old(k(f.Input))) && forall(j, Int, old(k(f.Input)) <= j && j < ite(result != nil, k(f.Input) - 1, k(f.Input)) && !is(pv(f, epochOf(f, j, old(k(f.Input)), old(epoch(f.Predicate)))), float64) ==> !predTruth(pv(f, epochOf(f, j, old(k(f.Input)), old(epoch(f.Predicate)))), epochOf(f, j, old(k(f.Input)), old(epoch(f.Predicate))), 0))
-//@   ensures[drains-input@C02] result == nil ==> k(f.Input) == slen(ref(f.Input), epoch(f.Input))
+//@   ensures[drains-input@C02,C03] result == nil ==> k(f.Input) == slen(ref(f.Input), epoch(f.Input))
 //@   loop 0 invariant[scan@C02] old(k(f.Input)) <= k(f.Input) && epoch(f.Input) == old(epoch(f.Input)) && (!is(f.Predicate, nopQuery) ==> epoch(f.Predicate) == old(epoch(f.Predicate)) + (k(f.Input) - old(k(f.Input))) && forall(j, Int, old(k(f.Input)) <= j && j < k(f.Input) && !is(pv(f, epochOf(f, j, old(k(f.Input)), old(epoch(f.Predicate)))), float64) ==> !predTruth(pv(f, epochOf(f, j, old(k(f.Input)), old(epoch(f.Predicate)))), epochOf(f, j, old(k(f.Input)), old(epoch(f.Predicate))), 0)))
 //@   loop 0 invariant f.positmap != nil
 //@   loop * invariant[cursor@C13] cur(t) == old(cur(t)) && pos(cur(t)) == old(pos(cur(t)))
